@@ -47,7 +47,11 @@ class SimGroup(dist.ProcessGroup):
 
 
 class SimFuture(torch.futures.Future):
-    """Future whose wait() yields the baton."""
+    """Future whose wait() yields the baton.
+
+    The result of an asynchronous collective reaches the output buffer - and the callbacks chained on its future with then() run - only
+    when the future or one derived from it is OBSERVED (wait / value / done / add_done_callback): "the buffer is undefined until the
+    work is waited for".  Code that drops the future and reads the buffer anyway therefore sees the old contents on every schedule."""
 
     def __init__(self, *a, **k):
         super().__init__()
@@ -55,23 +59,42 @@ class SimFuture(torch.futures.Future):
         self._sd_value = None
         self._sd_cbs: list = []
         self._sd_owner = getattr(_tls, 'rank', None)
-        # an async collective that nobody waits for or chains on: its result reaches the output buffer only when it is
-        # observed (wait / value / then / add_done_callback) - "the buffer is undefined until the work is waited for"
-        self._sd_deferred = None
+        self._sd_deferred = None      # completed but unobserved collective: closure that writes the buffer and fires the callbacks
+        self._sd_parent = None        # the future this one was derived from with then()
+        self._sd_eager = False        # an add_done_callback listener exists somewhere below: deliver at completion
 
     def _sd_flush(self):
         d, self._sd_deferred = self._sd_deferred, None
         if d is not None:
             d()
 
+    def _sd_fire(self):
+        cbs, self._sd_cbs = self._sd_cbs, []
+        for cb in cbs:
+            cb(self)
+
+    def _sd_ready(self):
+        if self._sd_done:
+            return True
+        p = self._sd_parent
+        return p is not None and p._sd_ready()
+
+    def _sd_force(self):
+        if not self._sd_done and self._sd_parent is not None:
+            self._sd_parent._sd_force()
+        self._sd_flush()
+
     # -- torch.futures.Future API used by kfac --
     def done(self):
-        return self._sd_done
+        if self._sd_ready():
+            self._sd_force()
+            return True
+        return False
 
     def value(self):
-        if not self._sd_done:
+        if not self._sd_ready():
             raise RuntimeError('value() on a future that is not done')
-        self._sd_flush()
+        self._sd_force()
         return self._sd_value
 
     def set_result(self, result):
@@ -82,27 +105,29 @@ class SimFuture(torch.futures.Future):
         w = _WORLD
         if w is not None:
             w.progress += 1
-        cbs, self._sd_cbs = self._sd_cbs, []
-        for cb in cbs:
-            cb(self)
+        self._sd_fire()
 
     def then(self, callback):
         child = SimFuture()
         child._sd_owner = self._sd_owner
+        child._sd_parent = self
 
         def run(parent):
             child.set_result(callback(parent))
 
-        if self._sd_done:
-            self._sd_flush()
+        if self._sd_done and self._sd_deferred is None:
             run(self)
         else:
-            self._sd_cbs.append(run)
+            self._sd_cbs.append(run)      # pending, or completed but not observed yet: runs when the chain is observed
         return child
 
     def add_done_callback(self, callback):
-        if self._sd_done:
-            self._sd_flush()
+        f = self
+        while f is not None:
+            f._sd_eager = True
+            f = f._sd_parent
+        if self._sd_ready():
+            self._sd_force()
             callback(self)
         else:
             self._sd_cbs.append(callback)
@@ -110,12 +135,12 @@ class SimFuture(torch.futures.Future):
     def wait(self):
         w = _WORLD
         if w is None:
-            if not self._sd_done:
+            if not self._sd_ready():
                 raise RuntimeError('wait() outside a simulated world')
-            self._sd_flush()
+            self._sd_force()
             return self._sd_value
-        w.wait_until(lambda: self._sd_done, ('future', id(self)))
-        self._sd_flush()
+        w.wait_until(self._sd_ready, ('future', id(self)))
+        self._sd_force()
         return self._sd_value
 
 
@@ -352,11 +377,15 @@ class World:
 
         def deliver(r, write, result):
             fut = inst.futs[r]
-            if inst.lazy.get(r) and not fut._sd_cbs:
-                fut._sd_deferred = write          # asynchronous and not (yet) observed: the buffer keeps its old contents
+            if inst.lazy.get(r) and not fut._sd_eager:
+                # asynchronous and not (yet) observed: the buffer keeps its old contents and the then()-chain stays unevaluated
+                fut._sd_value = result
+                fut._sd_done = True
+                self.progress += 1
+                fut._sd_deferred = lambda: (write(), fut._sd_fire())
             else:
                 write()
-            fut.set_result(result)
+                fut.set_result(result)
         try:
             if k == 'all_reduce':
                 total = None
